@@ -78,7 +78,7 @@ Theorem necessity_refuted_filter :
 Proof.
   intros C.
   assert (Hall : forall l', results (run_iter (C l') (ksteps 1)) = [REnd]).
-  { intros l'. unfold run_iter, C. rewrite results_den; [|reflexivity|exact I].
+  { intros l'. unfold run_iter, C. rewrite results_den; [|reflexivity|exact I|reflexivity].
     simpl. rewrite filter_none. reflexivity. }
   split; [vm_compute; reflexivity|]. split; [exact Hall|].
   intros Hn. destruct (Hn ltac:(vm_compute; lia)) as (l' & _ & Hd).
@@ -99,7 +99,7 @@ Theorem necessity_refuted_compose :
 Proof.
   intros C.
   assert (Hall : forall l', results (run_iter (C l') (ksteps 1)) = [REnd]).
-  { intros l'. unfold run_iter, C. rewrite results_den; [|reflexivity|exact I].
+  { intros l'. unfold run_iter, C. rewrite results_den; [|reflexivity|exact I|reflexivity].
     simpl. rewrite filter_map_const. reflexivity. }
   split; [split; reflexivity|]. split; [vm_compute; reflexivity|].
   intros Hn. destruct (Hn ltac:(vm_compute; lia)) as (l' & _ & Hd).
@@ -128,19 +128,20 @@ Section NeedMap.
   Variables (cfg : config) (id : nat).
 
   Theorem map_needed g fl l k :
+    cb_panics fl = false ->
     (1 <= k <= length l + 1)%nat ->
     needed cfg (fun l => inl (ZMap g fl (ZSrc id (SSlice l)))) id l k.
   Proof.
-    intros Hk. unfold needed, pulls_in.
-    rewrite (proj1 (map_pulls_exact id cfg g fl l k)). intros _.
+    intros Hfl Hk. unfold needed, pulls_in.
+    rewrite (proj1 (map_pulls_exact id cfg g fl l k Hfl)). intros _.
     destruct (Nat.leb_spec k (length l)) as [Hle|Hgt].
     - exists (firstn (k - 1) l). split; [apply agree_firstn|].
-      rewrite (proj2 (map_pulls_exact id cfg g fl _ k)), (proj2 (map_pulls_exact id cfg g fl l k)).
+      rewrite (proj2 (map_pulls_exact id cfg g fl _ k Hfl)), (proj2 (map_pulls_exact id cfg g fl l k Hfl)).
       apply (expectZ_len_neq _ _ k (k - 1)); [lia|]. left.
       rewrite !map_length, firstn_length. lia.
     - assert (k = S (length l)) by lia. subst k. exists (l ++ [0]).
       replace (S (length l) - 1)%nat with (length l) by lia. split; [apply agree_snoc|].
-      rewrite (proj2 (map_pulls_exact id cfg g fl _ _)), (proj2 (map_pulls_exact id cfg g fl l _)).
+      rewrite (proj2 (map_pulls_exact id cfg g fl _ _ Hfl)), (proj2 (map_pulls_exact id cfg g fl l _ Hfl)).
       apply (expectZ_len_neq _ _ _ (length l)); [lia|]. right.
       rewrite !map_length, app_length. simpl. lia.
   Qed.
@@ -222,23 +223,24 @@ Section NeedFilter.
   Qed.
 
   Theorem filter_needed fl l k :
+    cb_panics fl = false ->
     (exists y, kp y = true) ->
     (1 <= k <= length (filter kp l) + 1)%nat ->
     needed cfg (fun l => inl (ZFilter keep fl (ZSrc id (SSlice l)))) id l k.
   Proof.
-    intros [y Hy] Hk. unfold needed, pulls_in.
-    rewrite (proj1 (filter_pulls_all id keep cfg fl l k)). intros _.
+    intros Hfl [y Hy] Hk. unfold needed, pulls_in.
+    rewrite (proj1 (filter_pulls_all id keep fl Hfl cfg l k)). intros _.
     destruct (Nat.leb_spec k (length (filter kp l))) as [Hle|Hgt].
     - destruct (filter_pos_item l k ltac:(lia)) as [H1 H2].
       exists (firstn (filter_pos keep l k - 1) l). split; [apply agree_firstn|].
-      rewrite (proj2 (filter_pulls_all id keep cfg fl _ k)),
-              (proj2 (filter_pulls_all id keep cfg fl l k)).
+      rewrite (proj2 (filter_pulls_all id keep fl Hfl cfg _ k)),
+              (proj2 (filter_pulls_all id keep fl Hfl cfg l k)).
       apply (expectZ_len_neq _ _ k (k - 1)); [lia|]. left. rewrite H2. lia.
     - assert (k = S (length (filter kp l))) by lia. subst k. rewrite filter_pos_end.
       exists (l ++ [y]). replace (S (length l) - 1)%nat with (length l) by lia.
       split; [apply agree_snoc|].
-      rewrite (proj2 (filter_pulls_all id keep cfg fl _ _)),
-              (proj2 (filter_pulls_all id keep cfg fl l _)).
+      rewrite (proj2 (filter_pulls_all id keep fl Hfl cfg _ _)),
+              (proj2 (filter_pulls_all id keep fl Hfl cfg l _)).
       apply (expectZ_len_neq _ _ _ (length (filter kp l))); [lia|]. right.
       rewrite filter_app, app_length. simpl. rewrite Hy. simpl. lia.
   Qed.
@@ -276,20 +278,21 @@ Section NeedWhile.
   Proof. induction l as [|x t IH]; simpl; [lia|]. destruct (fp x); simpl; lia. Qed.
 
   Theorem while_needed fl l k :
+    cb_panics fl = false ->
     (exists y, fp y = true) ->
     (1 <= k <= length (takewhile fp l) + 1)%nat ->
     needed cfg (fun l => inl (ZWhile f fl (ZSrc id (SSlice l)))) id l k.
   Proof.
-    intros [y Hy] Hk. unfold needed, pulls_in.
-    rewrite (proj1 (while_pulls_exact id f cfg fl l k)). intros _.
+    intros Hfl [y Hy] Hk. unfold needed, pulls_in.
+    rewrite (proj1 (while_pulls_exact id f cfg fl l k Hfl)). intros _.
     set (t := length (takewhile fp l)) in *.
     assert (Hn : while_pulls f l k = k).
     { unfold while_pulls. fold t. destruct (t <? length l)%nat; lia. }
     rewrite Hn. pose proof (takewhile_length_le l) as Htl. fold t in Htl.
     destruct (Nat.leb_spec k t) as [Hle|Hgt].
     - exists (firstn (k - 1) l). split; [apply agree_firstn|].
-      rewrite (proj2 (while_pulls_exact id f cfg fl _ k)),
-              (proj2 (while_pulls_exact id f cfg fl l k)).
+      rewrite (proj2 (while_pulls_exact id f cfg fl _ k Hfl)),
+              (proj2 (while_pulls_exact id f cfg fl l k Hfl)).
       apply (expectZ_len_neq _ _ k (k - 1)); [lia|]. left.
       rewrite takewhile_firstn by (fold t; lia). rewrite firstn_length. fold t. lia.
     - assert (k = S t) by lia. subst k. exists (takewhile fp l ++ [y]).
@@ -297,8 +300,8 @@ Section NeedWhile.
       + rewrite takewhile_prefix at 1. fold t. intros i Hi.
         rewrite nth_error_app1 by (rewrite firstn_length; lia).
         symmetry. apply nth_error_firstn_lt. exact Hi.
-      + rewrite (proj2 (while_pulls_exact id f cfg fl _ _)),
-                (proj2 (while_pulls_exact id f cfg fl l _)).
+      + rewrite (proj2 (while_pulls_exact id f cfg fl _ _ Hfl)),
+                (proj2 (while_pulls_exact id f cfg fl l _ Hfl)).
         apply (expectZ_len_neq _ _ _ t); [lia|]. right.
         rewrite takewhile_snoc by exact Hy. rewrite app_length. fold t. simpl. lia.
   Qed.
@@ -493,5 +496,5 @@ Example needed_demo :
                      (ksteps 2)) 0 = 4%nat.
 Proof.
   split; [|vm_compute; reflexivity].
-  apply filter_needed; [exists 0; reflexivity|simpl; lia].
+  apply filter_needed; [reflexivity|exists 0; reflexivity|simpl; lia].
 Qed.
